@@ -248,7 +248,9 @@ def check_C07(tier, nproc=None):
                 slid.append((t, obj))
     for t, obj in slid:
         c.add(Job('vH_C07', [('tmpl', 'd', t), ('bool', obj)], weight=400))
-    c.bounds = {'N': N, 'sliding_window_strings': '18-byte string members, object values and keys with a free window at offsets %s' % list(pos), 'depth_limit': 'nesting templates with the limit scaled to 3 (the handler machines themselves have no limit; values the handler declines are validated by the embedded skip machines)', 'handler': 'every per-call mix of "return 0" and "return exact end offset" (one nondeterministic boolean per call)'}
+    # long documents with every kind of member, one free byte at every offset (handler: every mix of 0 / exact end per call)
+    nwin = _window_jobs(c, 'vH_C07', [('bool', False)], 'quick', docs=LONG_DOCS[:1], weight=300) + _window_jobs(c, 'vH_C07', [('bool', True)], 'quick', docs=LONG_DOCS[1:2], weight=300)
+    c.bounds = {'N': N, 'long_document_windows': LONG_WINDOW_BOUND % nwin, 'sliding_window_strings': '18-byte string members, object values and keys with a free window at offsets %s' % list(pos), 'depth_limit': 'nesting templates with the limit scaled to 3 (the handler machines themselves have no limit; values the handler declines are validated by the embedded skip machines)', 'handler': 'every per-call mix of "return 0" and "return exact end offset" (one nondeterministic boolean per call)'}
     c.must_reach = ['C07.returned', 'C07.success']
     _std(c)
     c.outside = ['inputs longer than N bytes', 'more than 8 members', 'nesting beyond N']
